@@ -394,9 +394,22 @@ def judge(c, r, v):
         # reached through different scores ((a+b)/2 = (c+d)/2) may differ in the last bit in floating point, and then the
         # code normalises that noise to 1 / 0: nothing about the scores is determined; rows and order (one tie group) were
         # compared above.
+        # Certain = the medians of the DOUBLES are equal as rationals and each is itself a double (then any way of computing
+        # the median in floating point yields that very double).
         lab = c["label"]
-        vals = {float(Fraction(sc)) for a, b, sc in c["rows"] if lab == a.split("-")[0] or lab == b.split("-")[0]}
-        if len(vals) > 1:
+        acc = {}
+        for a, b, sc in c["rows"]:
+            if lab == a.split("-")[0]:
+                acc.setdefault(b, []).append(Fraction(float(Fraction(sc))))
+            elif lab == b.split("-")[0]:
+                acc.setdefault(a, []).append(Fraction(float(Fraction(sc))))
+        fmed = set()
+        for vs in acc.values():
+            vs = sorted(vs)
+            k = len(vs)
+            fmed.add(vs[k // 2] if k % 2 else (vs[k // 2 - 1] + vs[k // 2]) / 2)
+        certain = len(fmed) == 1 and all(Fraction(float(m)) == m for m in fmed)
+        if not certain:
             res["status"] = "ok-degenerate-float-unresolved"
             return res
         if not all(math.isnan(x) for _, x in so):
